@@ -478,4 +478,13 @@ example : paretoCmp [ofBits bZero, ofBits bOne] [ofBits bOne, ofBits bZero] = no
 example : paretoCmp [ofBits bZero] [ofBits bZero, ofBits bZero] = none := by decide +kernel
 example : (addC (ofBits bMax) (ofBits bMax)).legal = true := by decide +kernel
 
+example : sortObjs id [F64.fin 3, .pinf, .fin (-1), .fin 3] = .ok [.fin (-1), .fin 3, .fin 3, .pinf] ∧
+    minObjs id [F64.fin 3, .pinf, .fin (-1)] = .ok (some (.fin (-1))) ∧
+    maxObjs id [F64.fin 3, .pinf, .fin (-1)] = .ok (some .pinf) := by decide
+example : sortObjs id [F64.fin 3, .nan] = .panic := by decide
+example : (tryFromVec [ofBits bOne, ofBits bNegInf, ofBits bNan]).toOption = none := by decide +kernel
+example : (0 : Int) ≤ 5 ∧ (addC (.fin 5) (.fin 7)).legal = true := by decide +kernel
+example : ofNatBits 0x3ff0000000000000 = .fin scale ∧ (0x3ff0000000000000 : Nat) < 0x7ff0000000000000 := by
+  decide +kernel
+
 end MahfModel.Props.C09
